@@ -121,8 +121,11 @@ def make_reporter(ctx, binp, pid, kinds_wanted):
         if seen[key] > 2:
             return
         again = _confirm(ctx, binp, case, r)
-        if again is None or again["kind"] != kind:
+        # the isolated run may classify the same failure more precisely (a mismatch that is also a loss of text)
+        if again is None or again["kind"] not in ("mismatch", "panic", "hang", "textloss"):
             raise vlib.Infra("a %s did not reproduce in isolation (case %d)" % (kind, case["id"]))
+        kind = again["kind"]
+        r = dict(r, got=again.get("got", r.get("got")), msg=again.get("msg", r.get("msg")))
         f = lambda gs: [(g["g"], g["t"], g["x"], g["y"], g["adv"]) for g in gs or []]
         what = {
             "mismatch": "gtab.Context.Apply differs from the reference semantics",
